@@ -149,6 +149,20 @@ func c01Enumerate(tier string, seed int64, emit func(string, any)) {
 			}
 		}
 	}
+	// (iv'') the control-flow program family (every compound statement, break / continue / return placements, template blocks in loops)
+	gen.ControlFlow(thorough, func(s string) {
+		emit("control-flow", c01Case{Srcs: []string{s, s}, Cfg: cfgs[0]})
+	})
+	// (iv''') exploding / unbounded programs under EVERY budget 1..48 (the exact value at which the counter meets the budget matters)
+	for _, src := range []string{"5a2m2", "5c2m2", "1a2m4611686018427387904", "3c2m4611686018427387904", "20a2", "2a10 + 2c10", "i=0; while 1 { i = i + 1 }", "func g(n){ g(n+1) }; g(0)", "&a = a + 1; a", "x='a'; while 1 { x = x + x }"} {
+		for b := int64(1); b <= 48; b++ {
+			for _, max := range []bool{false, true} {
+				c := drv.AllOn()
+				c.OpLimit, c.ParseLimit, c.Max = b, 100000, max
+				emit("budget sweep 1..48", c01Case{Srcs: []string{src}, Cfg: c})
+			}
+		}
+	}
 	// (v) histories: ordered pairs on one VM
 	gen.Histories(func(a, b string) {
 		emit("histories", c01Case{Srcs: []string{a, b}, Cfg: cfgs[0]})
